@@ -55,3 +55,9 @@ Proof.
   - intros H. discriminate.
   - rewrite fixed_preimages_lemma. cbn. discriminate.
 Qed.
+
+(* the example zone alternates standard (-5 h) and daylight (-4 h) periods *)
+From V Require Import tzfile.TzGenericInstThm.
+Example ex_simple_dst : alt_from (-18000) (z_init (zone_of ex_d)) (z_trans (zone_of ex_d)) = true /\
+  -18000 <= z_init (zone_of ex_d).
+Proof. vm_compute. split; [reflexivity|discriminate]. Qed.
